@@ -1,5 +1,6 @@
 import RegexVerif.Sexp
 import RegexVerif.Model.Replace
+import RegexVerif.Model.ReplaceStrict
 
 namespace RegexVerif.Driver
 open RegexVerif Sexp RegexVerif.Replace
@@ -48,7 +49,12 @@ open C09 in
 /-- `(c09 (text …) (rms M…) (sms M…) (rep …) (caps nil | (n s)…) (capsize k) (names ((name…) num)…)
      (word (…)) (ecma b) (count c) (rtl b))` with `M = (index len G…)`, `G = (i l) | u`.
     Answer: the parsed replacement (rules, strings), validity of both sequences, and the results of
-    the Replace / ReplaceFunc / Split models. -/
+    the Replace / ReplaceFunc / Split models.  The models run are the *strict* variants
+    (`Model/ReplaceStrict.lean`: group slots, capture spans and string indices indexed as in Go, `panic`
+    when out of range); by `Props.C09.strict_eq_total*` they return what the total models return
+    whenever they return.  The third `valid` flag is the conjunction of the hypotheses of
+    `Props.C09.*_no_panic*` on the regex's tables and Go's matches: `envOk`, `capsOk` and `MatchOk
+    capsize text m` for every delivered match. -/
 def handleC09 (args : List Sexp) : String :=
   let field (k : String) : Option (List Sexp) := lookup k args
   let r : Option String := do
@@ -69,8 +75,9 @@ def handleC09 (args : List Sexp) : String :=
     let rtl ← (← field "rtl").head? >>= (·.bool?)
     let env : Env := ⟨caps, capsize, names, ecma⟩
     let isWord := fun c => word.contains c
-    let validS := mk "valid" [ofBool (valid rtl text rms), ofBool (valid rtl text sms), ofBool (envOk env)]
-    let splitS := mk "split" (resLists (split text sms count rtl))
+    let tablesOk := envOk env && capsOk env && (rms ++ sms).all (MatchOk capsize text)
+    let validS := mk "valid" [ofBool (valid rtl text rms), ofBool (valid rtl text sms), ofBool tablesOk]
+    let splitS := mk "split" (resLists (splitStrict text sms count rtl))
     match newReplacerData isWord env rep with
     | .error e =>
       let es := match e with | .overflow => "overflow" | .unmodelled => "unmodelled"
@@ -78,8 +85,8 @@ def handleC09 (args : List Sexp) : String :=
     | .ok d =>
       let pieces := d.pieces
       let parseS := mk "parse" [.atom "ok", mk "rules" (d.rules.map ofInt), mk "strings" (d.strings.map ofNats)]
-      let replS := mk "replace" (resNats (replace text rms pieces count rtl))
-      let funcS := mk "func" (resNats (replaceFunc text rms (expand pieces text) count rtl))
+      let replS := mk "replace" (resNats (replaceDataStrict text rms d count rtl))
+      let funcS := mk "func" (resNats (replaceFuncStrict text rms (expand? pieces text) count rtl))
       pure (toString (mk "ans" [parseS, validS, replS, funcS, splitS]))
   r.getD "(bad-op)"
 
